@@ -458,6 +458,28 @@ func (q *vC19Queryer) Query(ctx context.Context, req *dns.Msg) (*dns.Msg, error)
 	return w.msg, nil
 }
 
+// vC19Wire turns req into a wire-born request (the strict path the owned UDP/TCP listeners use):
+// packs it, lets Request.ParseWire judge it, and returns the request together with the client
+// options as the wire carries them (the packer normalises subnet options: host bits, address width).
+func vC19Wire(req *dns.Msg) (*middleware.Request, []dns.EDNS0, bool, bool) {
+	raw, err := req.Pack()
+	if err != nil {
+		return nil, nil, false, false
+	}
+	dec := new(dns.Msg)
+	if err := dec.Unpack(raw); err != nil {
+		return nil, nil, false, false
+	}
+	wr := new(middleware.Request)
+	if !wr.ParseWire(raw, time.Now(), nil) {
+		return nil, nil, false, false
+	}
+	if o := dec.IsEdns0(); o != nil {
+		return wr, o.Option, true, true
+	}
+	return wr, nil, false, true
+}
+
 func vC19FirstECS(m *dns.Msg) *dns.EDNS0_SUBNET {
 	if o := m.IsEdns0(); o != nil {
 		for _, x := range o.Option {
@@ -497,15 +519,26 @@ func vC19V4(a, b, c, d int) net.IP { return net.IP{byte(a), byte(b), byte(c), by
 func vC19GenClients(r *rand.Rand, b vC19BuildArgs) []vC19Client {
 	base4 := [2]int{r.Intn(223) + 1, r.Intn(256)}
 	third := r.Intn(254)
-	if r.Intn(3) == 0 {
-		third = 0 // the /24 that a shorter, masked client prefix of the same /16 or /20 starts with
+	// one "wide" source length per family and history; half of the time the base network is the FIRST
+	// /24 (/56, /64) of that wide prefix, so that the wide client's masked address, zero-extended,
+	// coincides with the narrow clients' network — the case in which a probe that starts below the
+	// client's own length would find their entries
+	wide4 := []int{8, 12, 16, 20, 22, 23}[r.Intn(6)]
+	wide6 := []int{32, 40, 44, 48, 52, 55}[r.Intn(6)]
+	if r.Intn(2) == 0 {
+		v := uint32(base4[0])<<24 | uint32(base4[1])<<16 | uint32(third)<<8
+		v &^= (uint32(1) << uint(32-wide4)) - 1
+		base4[0], base4[1], third = int(v>>24), int(v>>16&0xff), int(v>>8&0xff)
+		if base4[0] == 0 {
+			base4[0] = 1
+		}
 	}
 	var base6 [16]byte
 	r.Read(base6[:])
 	base6[0], base6[1] = 0x20, 0x01
-	if r.Intn(3) == 0 {
-		for i := 4; i < 8; i++ {
-			base6[i] = 0
+	if r.Intn(2) == 0 {
+		for bit := wide6; bit < 64; bit++ {
+			base6[bit/8] &^= 0x80 >> uint(bit%8)
 		}
 	}
 	mk4 := func() net.IP {
@@ -563,23 +596,32 @@ func vC19GenClients(r *rand.Rand, b vC19BuildArgs) []vC19Client {
 			c.opts = []dns.EDNS0{&dns.EDNS0_COOKIE{Code: dns.EDNS0COOKIE, Cookie: "0011223344556677"}}
 		case 2: // generated option of any shape
 			c.opts = []dns.EDNS0{vC19GenECS(r, nil)}
+		case 3: // what `dig +subnet=0` sends: family 0, source 0, no address
+			c.opts = []dns.EDNS0{&dns.EDNS0_SUBNET{Code: dns.EDNS0SUBNET, Family: 0, SourceNetmask: 0}}
 		default:
 			fam, ip, w := 1, mk4(), 32
 			if r.Intn(4) == 0 {
 				fam, ip, w = 2, mk6(), 128
 			}
 			mask := w
-			switch r.Intn(6) {
+			switch r.Intn(8) {
 			case 0:
 				mask = []int{0, 1, w - 1, w}[r.Intn(4)]
 			case 1:
 				mask = r.Intn(w + 1)
 			case 2, 3:
 				mask = []int{24, 56}[fam-1]
-			case 4:
-				mask = []int{16, 20, 22, 23, 25, 48, 60, 64}[r.Intn(8)]
-				if mask > w {
-					mask = w
+			case 4, 5, 6: // shorter than the usual ceilings and floors: a wide client next to narrow ones
+				if fam == 1 {
+					mask = wide4
+					if r.Intn(3) == 0 {
+						mask = []int{8, 12, 16, 20, 22, 23}[r.Intn(6)]
+					}
+				} else {
+					mask = wide6
+					if r.Intn(3) == 0 {
+						mask = []int{32, 40, 44, 48, 52, 55}[r.Intn(6)]
+					}
 				}
 			}
 			c.opts = []dns.EDNS0{&dns.EDNS0_SUBNET{Code: dns.EDNS0SUBNET, Family: uint16(fam), SourceNetmask: uint8(mask), Address: ip}}
@@ -872,6 +914,7 @@ type vC19Planned struct {
 	cl           vC19Client
 	qi           int
 	cd, aged     bool
+	wire         bool // enter as a wire-born request when the strict parser admits the packet
 	upTTL, rfTTL int
 	upClass      int
 	rfClass      int
@@ -931,11 +974,56 @@ func vC19HistoryCase(tr *vC19Trace, r *rand.Rand) {
 		for i := 0; i < nops; i++ {
 			pl := vC19Planned{cl: clients[r.Intn(len(clients))], qi: r.Intn(2), cd: r.Intn(10) == 0, aged: r.Intn(3) == 0,
 				upTTL: []int{20, 60, 300, 3600, 86400, 200000}[r.Intn(6)], rfTTL: []int{20, 300, 86400, 200000}[r.Intn(4)],
-				upClass: class(), rfClass: class(), upGen: gen, rfGen: gen}
+				upClass: class(), rfClass: class(), upGen: gen, rfGen: gen, wire: r.Intn(2) == 0}
 			if shortLived {
 				pl.aged = false
 			}
 			plan = append(plan, pl)
+			// audience-boundary probes: a narrow client gets an answer scoped to what it sent, then the same
+			// name is asked by (a) a client of the enclosing wider prefix whose masked address, zero-extended,
+			// is the narrow client's network, (b) the sibling network, (c) another host of the same network
+			if !shortLived && r.Intn(4) == 0 {
+				is4 := r.Intn(4) != 0
+				a := vC19RandAddr(r, is4).AsSlice()
+				w, narrow, wide := 32, 24, []int{8, 12, 16, 20, 22, 23}[r.Intn(6)]
+				if !is4 {
+					w, narrow, wide = 128, []int{56, 64}[r.Intn(2)], []int{32, 40, 44, 48, 52, 55}[r.Intn(6)]
+				}
+				for bit := wide; bit < narrow; bit++ {
+					a[bit/8] &^= 0x80 >> uint(bit%8)
+				}
+				if a[0] == 0 {
+					a[0] = 0x20
+				}
+				fam := uint16(1)
+				if !is4 {
+					fam = 2
+				}
+				mkc := func(addr []byte, mask int) vC19Client {
+					return vC19Client{remote: pl.cl.remote, hasOPT: true, opts: []dns.EDNS0{&dns.EDNS0_SUBNET{Code: dns.EDNS0SUBNET, Family: fam,
+						SourceNetmask: uint8(mask), Address: append(net.IP(nil), addr...)}}}
+				}
+				echo := func(seen *dns.EDNS0_SUBNET) ([]dns.EDNS0, bool) {
+					if seen == nil {
+						return nil, false
+					}
+					return []dns.EDNS0{&dns.EDNS0_SUBNET{Code: dns.EDNS0SUBNET, Family: seen.Family, SourceNetmask: seen.SourceNetmask,
+						SourceScope: seen.SourceNetmask, Address: append(net.IP(nil), seen.Address...)}}, true
+				}
+				host := append([]byte(nil), a...)
+				host[len(host)-1] |= byte(1 + r.Intn(200))
+				sib := append([]byte(nil), a...)
+				sib[(narrow-1)/8] ^= 0x80 >> uint((narrow-1)%8)
+				other := append([]byte(nil), a...)
+				other[len(other)-1] |= byte(201 + r.Intn(50))
+				base := vC19Planned{qi: pl.qi, cd: pl.cd, upTTL: 300, rfTTL: 300, upGen: echo, rfGen: gen, wire: r.Intn(2) == 0}
+				for _, cl := range []vC19Client{mkc(host, []int{narrow, w}[r.Intn(2)]), mkc(a, wide), mkc(sib, narrow), mkc(other, w)} {
+					x := base
+					x.cl = cl
+					plan = append(plan, x)
+				}
+				_ = w
+			}
 		}
 		return plan
 	}, "cache-history")
@@ -993,6 +1081,12 @@ func vC19ExecHistory(tr *vC19Trace, b vC19BuildArgs, ecsMax time.Duration, prefe
 			}
 			req.Extra = append(req.Extra, o)
 		}
+		var wireReq *middleware.Request
+		if pl.wire {
+			if wr, o, h, ok := vC19Wire(req); ok {
+				wireReq, cl.opts, cl.hasOPT = wr, o, h
+			}
+		}
 		qcoq := fmt.Sprintf("(mk_query %s %s %s %d)", vC19Bytes(cl.remote), vC19OptOpts(cl.opts, cl.hasOPT), vC19Bool(cd), qi)
 		var qopts []string
 		for _, x := range cl.opts {
@@ -1028,7 +1122,11 @@ func vC19ExecHistory(tr *vC19Trace, b vC19BuildArgs, ecsMax time.Duration, prefe
 		}})
 		w := &vC19Writer{proto: "udp", remote: cl.remote, port: 40000 + i}
 		ch := middleware.NewChain([]middleware.Handler{e, c, middleware.HandlerFunc(up.serve)})
-		ch.Reset(w, req)
+		if wireReq != nil {
+			ch.ResetWire(w, wireReq)
+		} else {
+			ch.Reset(w, req)
+		}
 		ch.Next(context.Background())
 		for en, st := range before {
 			en.stored = st
@@ -1061,7 +1159,7 @@ func vC19ExecHistory(tr *vC19Trace, b vC19BuildArgs, ecsMax time.Duration, prefe
 			return true
 		})
 
-		d := map[string]any{"client": cl.remote.String(), "opts": qopts, "q": names[qi], "cd": cd, "aged": aged, "served_answer": served}
+		d := map[string]any{"client": cl.remote.String(), "wire_born": wireReq != nil, "opts": qopts, "q": names[qi], "cd": cd, "aged": aged, "served_answer": served}
 		obs := ""
 		if up.called {
 			// ---------------- miss
@@ -1355,7 +1453,10 @@ func vC19DenialCase(tr *vC19Trace, r *rand.Rand) {
 	})
 	// a probe in front of the cache records which names the cache was asked for, in order
 	probe := middleware.HandlerFunc(func(ctx context.Context, ch *middleware.Chain) {
-		if nd := byName[ch.Request.Msg().Question[0].Name]; nd != nil {
+		if ch.Request.Undecoded() {
+			// the wire-born root: do not decode it here, the cache's wire ladder runs on the bytes
+			order = append(order, nodes[0])
+		} else if nd := byName[ch.Request.Msg().Question[0].Name]; nd != nil {
 			order = append(order, nd)
 		}
 		ch.Next(ctx)
@@ -1374,6 +1475,11 @@ func vC19DenialCase(tr *vC19Trace, r *rand.Rand) {
 	if cdFlipTemplate {
 		cl.opts, cl.hasOPT = nil, true
 		cd = true
+	} else if r.Intn(5) == 0 {
+		// the option in its opt-out form (family 0, source 0, no address): still a client-sent subnet
+		// option, so the tree is audience-marked although nothing can be forwarded
+		cl.opts, cl.hasOPT = []dns.EDNS0{&dns.EDNS0_SUBNET{Code: dns.EDNS0SUBNET, Family: 0, SourceNetmask: 0}}, true
+		cd = false
 	}
 	req := new(dns.Msg)
 	req.SetQuestion(nodes[0].name, dns.TypeA)
@@ -1392,10 +1498,20 @@ func vC19DenialCase(tr *vC19Trace, r *rand.Rand) {
 			}
 		}
 	}
+	var wireReq *middleware.Request
+	if r.Intn(2) == 0 {
+		if wr, o, h, ok := vC19Wire(req); ok {
+			wireReq, cl.opts, cl.hasOPT = wr, o, h
+		}
+	}
 	cutsBefore, proofsBefore := c.store.NXDomainCutLen(), c.store.DenialProofLen()
 	w := &vC19Writer{proto: "udp", remote: cl.remote, port: 41000}
 	ch := middleware.NewChain(handlers())
-	ch.Reset(w, req)
+	if wireReq != nil {
+		ch.ResetWire(w, wireReq)
+	} else {
+		ch.Reset(w, req)
+	}
 	ch.Next(context.Background())
 	created := c.store.NXDomainCutLen() != cutsBefore || c.store.DenialProofLen() != proofsBefore
 
@@ -1449,6 +1565,6 @@ func vC19DenialCase(tr *vC19Trace, r *rand.Rand) {
 	k += fmt.Sprintf("-depth%d", len(order))
 	tr.emit(map[string]any{"k": k, "coq": fmt.Sprintf("CaseDenial %s (%s) [%s]", b.coq(), tree, strings.Join(seen, "; ")),
 		"go_fail": goFail, "nontrivial": true,
-		"desc": map[string]any{"ecs_cfg": fmt.Sprintf("%+v", b), "client": cl.remote.String(), "cd": cd, "subnet_option": rawECS, "proof_seeded": proofSeeded, "nodes": ndesc}})
+		"desc": map[string]any{"ecs_cfg": fmt.Sprintf("%+v", b), "client": cl.remote.String(), "wire_born": wireReq != nil, "cd": cd, "subnet_option": rawECS, "proof_seeded": proofSeeded, "nodes": ndesc}})
 	_ = pol
 }
